@@ -618,6 +618,7 @@ CONSTANTS
   MaxLen = %d
   Emit = TRUE
 INVARIANT Valid
+INVARIANT ClassVsField
 INVARIANT Injective
 CHECK_DEADLOCK FALSE
 """
@@ -627,16 +628,21 @@ def label_traces(chk, maxlen):
     """MC_Labels: the label pipeline transcribed over a small alphabet; every key compared with the real prepare_label"""
     from json_to_models.models.base import prepare_label
     r = chk.model_check("MC_Labels", CFG_LABELS % maxlen, "label pipeline (strip non-word characters, leading digit rule, inflection.underscore, "
-                        "reserved-word suffix) on every pair of keys of <=%d characters over {a,B,f,i,1,_,-}: Valid Injective" % maxlen,
+                        "reserved-word suffix, class-name capitalisation) on every pair of keys of <=%d characters over {a,B,f,i,1,_,-}: Valid ClassVsField Injective" % maxlen,
                         workers=1)
     evs = []
     for t in tlc.printed_tuples(r["out"], "B"):
         b = json.loads(t[1])
         key = "".join(b["key"])
-        ev = {"ev": "Label", "key": list(key), "field": [], "cls": [], "exc": ""}
+        ev = {"ev": "Label", "key": list(key), "field": [], "cls": [], "clsname": [], "exc": ""}
         try:
             ev["field"] = list(prepare_label(key, convert_unicode=True, to_snake_case=True))
             ev["cls"] = list(prepare_label(key, convert_unicode=True, to_snake_case=False))
+            from json_to_models.models.base import GenericModelCodeGenerator
+            from json_to_models.dynamic_typing import ModelMeta
+            mm = ModelMeta({"a": int}, "1")
+            mm.name = "Dummy"
+            ev["clsname"] = list(GenericModelCodeGenerator(mm).convert_class_name(key))
         except Exception as e:
             ev["exc"] = DI.exc_name(e)
         evs.append(ev)
